@@ -33,7 +33,7 @@ once converged B integrals are used; the package as shipped deviates by up to ~2
 (3e-6 eV in Hcore) whenever 1e-6 < |1/2 R (zeta_a - zeta_b)| <= 0.5 because `bintgs` truncates the
 Maclaurin series of B_k after x^6 (as MOPAC's BINTGS does).  `exact_b_integrals` separates the two.
 
-CLI:  PYTHONPATH=/verif python -m vf.oracle_nddo [--quick|--full|--selftest] [--modulo-bseries] [--deprecated] [--cone]
+CLI:  PYTHONPATH=/verif python -m vf.oracle_nddo [--quick|--full|--selftest] [--modulo-bseries] [--deprecated] [--cone] [--lean]
 """
 from __future__ import annotations
 
@@ -655,6 +655,98 @@ def cone_probe(method="AM1", z1=8, z2=6, R_angstrom=1.2, eps=3e-4) -> Dict[str, 
     return compare_hcore(method, z1, z2, R_angstrom, [-1.0, eps, 0.0])
 
 
+# ---------------------------------------------------------------------------------------------
+# 6. tie to the Lean model (PyseqmVerif/Model/Overlap.lean, theorems in Properties/C06b.lean)
+def lean_crosscheck(methods=("MNDO", "AM1", "PM3"), elements=ELEMENTS, distances=(0.7, 1.3, 2.9), seed=0) -> Dict[str, Any]:
+    """three-way tie through the compiled Lean driver:
+      (a) ops `aintgs jcall x` / `bintgs x`  vs the package's aintgs/bintgs.  Bit-identical except where
+          torch.exp and libm exp differ by 1 ulp; the upward recursion b_{k+1} = .. + k b_k/x amplifies that
+          (16 ulp seen in b7 at x = 2.56; up to ~1e5 ulp possible just above |x| = 0.5): tolerance 1e-10 relative
+      (b) op  `sto_local n1 n2 zsa zpa zsb zpb R` vs the package's overlap block along +z, for every
+          parametrised element pair of every table.  Same formulas, same operation order; the residual
+          (~1e-11) is the 1-ulp exp difference amplified by the cancellation in A_i B_j sums: tolerance 1e-9
+      (c) op  `sto_overlap n1 l1 n2 l2 m z1 z2 R` vs the quadrature oracle: <= 1e-9 outside the truncated
+          B-series window (conditioning noise of the closed forms ~1e-11), <= BOUND_BSERIES_OVERLAP inside"""
+    torch = _pkg()[0]
+    import seqm.seqm_functions.diat_overlap_PM6_SP as D
+    from seqm.seqm_functions.constants import Constants
+
+    from . import leanproj
+    from .core import b2f, f2b
+
+    rng = np.random.default_rng(seed)
+    drv = leanproj.Driver()
+    out: Dict[str, Any] = {"aux_max_ulp": 0.0, "local_vs_package": 0.0, "overlap_vs_oracle_exact_regime": 0.0, "overlap_vs_oracle_series_regime": 0.0, "n_pairs": 0, "bad_op": 0}
+
+    def ulps(a, b):
+        if a == b:
+            return 0.0
+        return abs(a - b) / max(np.spacing(abs(b)), 5e-324)
+    try:
+        xs = list(rng.uniform(-12, 12, size=30)) + [0.0, 1e-7, -1e-6, 1.0000001e-6, 0.3, -0.5, 0.5, 0.5000000001, -0.49999]
+        for x in xs:
+            b = D.bintgs(torch.tensor([float(x)]), torch.tensor([6]))[0, :7].tolist()
+            l = drv.ask("bintgs", f2b(x))
+            if len(l) != 7:
+                out["bad_op"] += 1
+                continue
+            out["aux_max_ulp"] = max(out["aux_max_ulp"], max(ulps(b2f(u), v) for u, v in zip(l, b)))
+        for jc in (2, 3, 4, 431, 5, 6):
+            for x in rng.uniform(0.2, 25, size=8):
+                a = D.aintgs(torch.tensor([float(x)]), torch.tensor([jc]))[0, :7].tolist()
+                l = drv.ask("aintgs", jc, f2b(x))
+                if len(l) != 7:
+                    out["bad_op"] += 1
+                    continue
+                out["aux_max_ulp"] = max(out["aux_max_ulp"], max(ulps(b2f(u), v) for u, v in zip(l, a)))
+        qn_int = Constants().qn_int
+        for method in methods:
+            for a in elements:
+                for b in elements:
+                    if a < b:
+                        continue
+                    try:
+                        mol = build_molecule(method, [a, b], [[0.0, 0.0, 0.0], [0.0, 0.0, 1.0]])
+                    except Exception:  # noqa: BLE001
+                        continue
+                    if _skip_reason(mol):
+                        continue
+                    out["n_pairs"] += 1
+                    zs, zp = mol.parameters["zeta_s"].tolist(), mol.parameters["zeta_p"].tolist()
+                    n1, n2 = PQN[a], PQN[b]
+                    for RA in distances:
+                        R = RA / A0
+                        with torch.no_grad():
+                            di = D.diatom_overlap_matrix_PM6_SP(torch.tensor([a]), torch.tensor([b]), torch.tensor([[0.0, 0.0, 1.0]]), torch.tensor([R]),
+                                                                torch.tensor([[zs[0], zp[0]]]), torch.tensor([[zs[1], zp[1]]]), qn_int)[0].numpy()
+                        pk = [di[0, 0], di[3, 0], -di[0, 3], -di[3, 3], di[1, 1]]      # S111 S211 S121 S221 S222
+                        l = drv.ask("sto_local", n1, n2, *[f2b(v) for v in (zs[0], zp[0], zs[1], zp[1], R)])
+                        if len(l) != 5:
+                            out["bad_op"] += 1
+                            continue
+                        lv = [b2f(t) for t in l]
+                        keep = [True, a > 1, b > 1, b > 1, b > 1]      # entries the Python sets for this pair class
+                        out["local_vs_package"] = max(out["local_vs_package"], max(abs(u - v) for u, v, k in zip(lv, pk, keep) if k))
+                        combos = [(0, 0, 0, zs[0], zs[1])]
+                        if a > 1:
+                            combos.append((1, 0, 0, zp[0], zs[1]))
+                        if b > 1:
+                            combos += [(0, 1, 0, zs[0], zp[1]), (1, 1, 0, zp[0], zp[1]), (1, 1, 1, zp[0], zp[1])]
+                        for (l1, l2, m, z1, z2) in combos:
+                            t = drv.ask("sto_overlap", n1, l1, n2, l2, m, f2b(z1), f2b(z2), f2b(R))
+                            if len(t) != 1 or t[0] == "bad-op":
+                                out["bad_op"] += 1
+                                continue
+                            d = abs(b2f(t[0]) - sto_overlap_numeric(n1, l1, m, z1, n2, l2, m, z2, R))
+                            key = "overlap_vs_oracle_series_regime" if 1e-6 < abs(0.5 * R * (z1 - z2)) <= 0.5 else "overlap_vs_oracle_exact_regime"
+                            out[key] = max(out[key], d)
+    finally:
+        drv.close()
+    out["ok"] = bool(out["bad_op"] == 0 and out["aux_max_ulp"] <= 4.5e5 and out["local_vs_package"] <= 1e-9 and out["overlap_vs_oracle_exact_regime"] <= 1e-9
+                     and out["overlap_vs_oracle_series_regime"] <= BOUND_BSERIES_OVERLAP and out["n_pairs"] > 0)
+    return out
+
+
 CLASSES = ("1-1", "1-2", "2-2", "1-3", "2-3", "3-3", "tri")
 
 
@@ -716,6 +808,7 @@ def main(argv: Optional[Sequence[str]] = None) -> int:
                     help="exit 0 also when the only excesses are explained by the package's truncated B-integral series "
                          "(they vanish to 1e-10 when converged B integrals are patched in, in-process)")
     ap.add_argument("--cone", action="store_true", help="also print the (known, F2) antipodal-cone probe; informational, does not affect the exit code")
+    ap.add_argument("--lean", action="store_true", help="also tie the Lean model (driver ops aintgs/bintgs/sto_local/sto_overlap) to the package and to the oracle")
     ap.add_argument("--seed", type=int, default=0)
     a = ap.parse_args(argv)
     t0 = time.time()
@@ -738,12 +831,17 @@ def main(argv: Optional[Sequence[str]] = None) -> int:
     show = ("method", "z1", "z2", "species", "R", "direction", "d_ovl", "d_ovl_from_H", "d_res", "d_diag", "d_ghost", "conv_ok", "b_series", "d_ovl_xb", "d_res_xb", "worst")
     for r in (unexplained or bad)[:10]:
         print("  UNEXPLAINED:" if unexplained else "  beyond tolerance (explained):", {k: r[k] for k in show if k in r})
+    lean_ok = True
+    if a.lean:
+        lc = lean_crosscheck(seed=a.seed)
+        lean_ok = lc["ok"]
+        print("  Lean model tie:", lc)
     if a.cone:
         r = cone_probe()
         print("  cone probe (informational, known finding F2): direction (-1, 3e-4, 0):", {k: r[k] for k in ("d_ovl", "d_res", "d_diag", "d_ovl_xb") if k in r})
     if a.modulo_bseries:
-        return 0 if (st_ok and not unexplained) else 1
-    return 0 if (st_ok and not bad) else 1
+        return 0 if (st_ok and lean_ok and not unexplained) else 1
+    return 0 if (st_ok and lean_ok and not bad) else 1
 
 
 if __name__ == "__main__":
